@@ -1904,6 +1904,9 @@ class GroupBy:
                 # For cases where we don't have n, use a simple range index
                 n_selected = len(ilocs)
                 out_index = pd.RangeIndex(n_selected)
+            elif keep.ndim == 1:
+                # one row per group (nth): the group keys
+                out_index = self.result_index[keep]
             else:
                 group_index = _ensure_multi_index(self.result_index)
                 keep = keep.ravel()
